@@ -27,6 +27,7 @@ EXTRA = {1: [[0.5], [2.0], [9.0]], 2: [[0.5, 0.5], [2.0, 2.0], [9.0, -3.0]]}
 def bounds(tier):
     q = tier == "quick"
     return {"classifiers": [c.name for c in M.CLASSIFIERS if c.supervised], "regressors": [r.name for r in M.REGRESSORS if r.supervised],
+            "refit_only_subjects": [c.name for c in M.STATEFUL_CLASSIFIERS + M.STATEFUL_REGRESSORS],
             "pools": ["line4", "grid4"] if q else ["line4", "dup4", "grid4"], "inserted_rows": "0, 1 (every position, every value); thorough: also 2",
             "weights": "None; labeled rows 1,2,1,2 and unlabeled rows all patterns over {0.5, 3}", "classes_modes": ["None", "declared"]}
 
@@ -38,6 +39,9 @@ def shards(tier, seed):
         for n in names:
             for p in b["pools"]:
                 out.append({"tier": tier, "kind": kind, "name": n, "pool": p})
+    for kind, subs in (("clf", M.STATEFUL_CLASSIFIERS), ("reg", M.STATEFUL_REGRESSORS)):
+        for s in subs:
+            out.append({"tier": tier, "kind": kind, "name": s.name, "pool": "line4", "refit_only": True})
     return out
 
 
@@ -117,11 +121,11 @@ def run_case(acc, kind, subj, pname, X, y, w, classes, tag):
     acc.outcome((subj.name, a[1][list(a[1])[0]].tobytes()))
 
 
-def run_reveal(acc, kind, subj, pname, X, y_full, hide, w, classes):
+def run_reveal(acc, kind, subj, pname, X, y_full, hide, w, classes, same_object=False):
     """'revealing labels in a different order': first fit with the labels in `hide` still missing, then reveal them and fit again with the
     SAME caller-owned arrays; the final model must equal the one fitted on the labeled subset with the original weights."""
     multi = getattr(subj, "multi", False)
-    key = (subj.name, pname, "reveal", X.tobytes(), y_full.tobytes(), tuple(hide), None if w is None else w.tobytes(), repr(classes))
+    key = (subj.name, pname, "reveal", same_object, X.tobytes(), y_full.tobytes(), tuple(hide), None if w is None else w.tobytes(), repr(classes))
     lbl = ~np.isnan(y_full) if not multi else np.any(~np.isnan(y_full), axis=1)
     if not lbl.any():
         acc.case(key, trivial=True)
@@ -132,8 +136,10 @@ def run_reveal(acc, kind, subj, pname, X, y_full, hide, w, classes):
     y0 = y_full.copy()
     y0[list(hide)] = NAN
     wit = {"learner": subj.name, "X": X.tolist(), "y_final": y_full.tolist(), "hidden_in_first_fit": list(hide), "sample_weight": None if w is None else w.tolist(),
-           "classes": classes, "how": "fit(X, y_partial, w); reveal labels; fit(X, y_final, w) with the same arrays"}
-    rep = {"kind": kind, "name": subj.name, "pool": pname, "X": X, "y": y_full, "w": w, "classes": classes, "hide": list(hide)}
+           "classes": classes, "how": "fit(X, y_partial, w); reveal labels; fit(X, y_final, w) with the same arrays" + (
+               " on the same learner object" if same_object else " on a second learner object")}
+    rep = {"kind": kind, "name": subj.name, "pool": pname, "X": X, "y": y_full, "w": w, "classes": classes, "hide": list(hide),
+           "same_object": same_object}
     size = len(X) * 10 + len(hide)
 
     def mk():
@@ -145,7 +151,7 @@ def run_reveal(acc, kind, subj, pname, X, y_full, hide, w, classes):
             warnings.simplefilter("ignore")
             e1 = mk()
             e1.fit(Xc, y0) if wc is None else e1.fit(Xc, y0, sample_weight=wc)
-            e2 = mk()
+            e2 = e1 if same_object else mk()
             yc = y_full.copy()
             e2.fit(Xc, yc) if wc is None else e2.fit(Xc, yc, sample_weight=wc)
             got = _predict(kind, subj, e2, Q)
@@ -166,7 +172,8 @@ def run_reveal(acc, kind, subj, pname, X, y_full, hide, w, classes):
         same = np.array_equal(got[k], want[k], equal_nan=True) if exact else np.allclose(got[k], want[k], rtol=1e-9, atol=1e-12, equal_nan=True)
         if not same:
             acc.violation(subj.name, "model_depends_on_reveal_order", "%s after revealing %s in a second step: %s; fitted on the labeled subset: %s" % (
-                k, list(hide), np.round(got[k], 6).tolist(), np.round(want[k], 6).tolist()), wit, {"weights": w is not None, "output": k}, rep, size)
+                k, list(hide), np.round(got[k], 6).tolist(), np.round(want[k], 6).tolist()), wit,
+                {"weights": w is not None, "output": k, "same_object": same_object}, rep, size)
             break
 
 
@@ -244,7 +251,13 @@ def run_shard(spec):
                 if w is not None and not getattr(subj, "supports_weights", True):
                     continue
                 ww = w if (w is None or not multi) else np.column_stack([w, w])
-                run_reveal(acc, kind, subj, spec["pool"], P, y, hide, ww, [0, 1, 2] if kind == "clf" else None)
+                for same in (False, True):
+                    if spec.get("refit_only") and not same:
+                        continue
+                    run_reveal(acc, kind, subj, spec["pool"], P, y, hide, ww, [0, 1, 2] if kind == "clf" else None, same)
+    if spec.get("refit_only"):
+        acc.states = len(acc.nontrivial)
+        return acc
     for i, (X, y, w, classes, tag) in enumerate(gen_cases(kind, subj, spec["pool"], spec["tier"])):
         run_case(acc, kind, subj, spec["pool"], X, y, w, classes, tag)
         if i % 301 == 0:
@@ -261,7 +274,7 @@ def replay(spec):
     y = np.asarray(spec["y"], dtype=float)
     w = None if spec["w"] is None else np.asarray(spec["w"], dtype=float)
     if spec.get("hide") is not None:
-        run_reveal(acc, kind, subj, spec["pool"], X, y, tuple(int(i) for i in spec["hide"]), w, spec["classes"])
+        run_reveal(acc, kind, subj, spec["pool"], X, y, tuple(int(i) for i in spec["hide"]), w, spec["classes"], bool(spec.get("same_object")))
         return [(s, k) for (s, k, _p) in acc.groups]
     run_case(acc, kind, subj, spec["pool"], X, y, w, spec["classes"], "replay")
     return [(s, k) for (s, k, _p) in acc.groups]
